@@ -204,19 +204,19 @@ theorem svm_block_eq {conv : Conv} {gR gI gQ : Bytes â†’ Res Nat} {gC : Bytes â†
 
 theorem svm_lineFormat {conv : Conv} {gR gI gQ : Bytes â†’ Res Nat} {gC : Bytes â†’ Res (Nat Ã— Nat)}
     (hL : conv.LocalWith gR gI gQ gC) (iw mode : Nat) :
-    LineFormat (svmRows Fixes.repaired conv iw mode) (svmRecS gR gI gQ iw mode) where
-  block_eq := svm_block_eq hL iw mode
-  strip := fun L => by simp [svmRecS, svmLineS_strip]
-  nil := by simp [svmRecS, svmLineS_nil, Except.map]
-  fields := Or.inl (fun L r h => by
-    simp only [svmRecS] at h
-    cases hs : svmLineS gR gI gQ L with
-    | error e => simp [hs, Except.map] at h
-    | ok o =>
-      cases o with
-      | none => simp [hs, Except.map] at h
-      | some l =>
-        simp [hs, Except.map] at h
-        by_cases hm : mode > 0 <;> simp [hm] at h <;> subst h <;> simp [decRecIdx, svmRec])
+    LineFormat (fun _ => true) (svmRows Fixes.repaired conv iw mode) (svmRecS gR gI gQ iw mode) :=
+  LineFormat.ofBlockEq (svm_block_eq hL iw mode)
+    (fun L => by simp [svmRecS, svmLineS_strip])
+    (by simp [svmRecS, svmLineS_nil, Except.map])
+    (Or.inl (fun L r h => by
+      simp only [svmRecS] at h
+      cases hs : svmLineS gR gI gQ L with
+      | error e => simp [hs, Except.map] at h
+      | ok o =>
+        cases o with
+        | none => simp [hs, Except.map] at h
+        | some l =>
+          simp [hs, Except.map] at h
+          by_cases hm : mode > 0 <;> simp [hm] at h <;> subst h <;> simp [decRecIdx, svmRec]))
 
 end DmlcModel.Parse
